@@ -688,8 +688,8 @@ func c15Epoch(c *Ctx) {
 	}
 	c.Sites["C15-R11#publications-after-compile"] = nPub
 	c.Sites["C15-R11#invalidators"] = nInv
-	if nPub < 3 || nInv < 2 {
-		c.undecided("C15-R11: %d publications / %d invalidators found, expected >= 3 / >= 2", nPub, nInv)
+	if nPub < 2 || nInv < 2 {
+		c.undecided("C15-R11: %d publications / %d invalidators found, expected >= 2 / >= 2", nPub, nInv)
 	}
 }
 
